@@ -64,12 +64,15 @@ class Fault:
         self.cut = None
         self.count = 0
         self.armed_file = None
+        self.dead = False
 
     def reset(self, root, at=None, kind=None, cut=None, record=False):
         self.root, self.at, self.kind, self.cut = root, at, kind, cut
         self.count = 0
         self.events = [] if record else None
         self.armed_file = None
+        self.dead = False      # after a crash nothing more reaches the file system: clean-up code (finally / except blocks that
+                               # remove or rename files) runs in this process but its file operations are refused, as if it had died
 
 
 FAULT = Fault()
@@ -99,12 +102,15 @@ def _hook(event, args):
         return
     if event == "open" and not _is_write_mode(args[1] if len(args) > 1 else None, args[2] if len(args) > 2 else None):
         return
+    if f.dead:
+        raise CrashNow()
     idx = f.count
     f.count += 1
     if f.events is not None:
         f.events.append((event, p[len(f.root):]))
     if f.at is not None and idx == f.at:
         if f.kind == "crash-before":
+            f.dead = True
             raise CrashNow()
         if f.kind == "error-before":
             raise OSError(errno.ENOSPC, "No space left on device (injected)")
@@ -127,6 +133,7 @@ class FaultyFile:
         f.armed_file = None
         if f.kind == "crash-mid":
             self._real.close()
+            f.dead = True
             raise CrashNow()
         raise OSError(errno.ENOSPC, "No space left on device (injected)")
 
